@@ -115,7 +115,17 @@ def setup(ctx):
     ctx.history_oracles = {"roundtrip"}
 
     def kf_d15(f):
-        return f["clause"] in ("bar-grid", "duration") and has_tail([[tuple(m) for m in t] for t in f["input"]["tracks"]])
+        tracks = [[tuple(m) for m in t] for t in f["input"]["tracks"]]
+        if f["clause"] not in ("bar-grid", "duration") or not has_tail(tracks):
+            return False
+        if f["clause"] == "duration":
+            # the duration falls short only when the last note end is not itself a bar line (a piece ending in a whole-bar note
+            # without a final rest has the right duration although its last bar is never closed: audit round 2, A4a)
+            notes, sigs, caps, _ = piece_of_tracks(tracks)
+            end_all = max([on + d for ns in notes for (p_, on, d, v) in ns] + [t for t, _, _ in sigs] + caps + [0])
+            grid = bar_grid(sigs, end_all) or []
+            return end_all != (grid[-1] if grid else 0)
+        return True
 
     import json as _json
     import os as _os
